@@ -19,6 +19,23 @@ def enc(v):
 
 def mk_cfg(case):
     from bldfm.config_parser import MetConfig
+    if case.get("prev") is not None:
+        # the SAME MetConfig object re-used: built and consulted for an earlier forcing, then given the fields of this one
+        # (it is a plain mutable dataclass); what it says must be about the fields it holds now
+        m = mk_cfg(case["prev"])
+        try:
+            m.validate()
+        except ValueError:
+            pass
+        try:
+            m.n_timesteps
+            m.get_step(0)
+        except Exception:  # noqa: BLE001
+            pass
+        fresh = mk_cfg({k: v for k, v in case.items() if k != "prev"})
+        for f in tuple(FIELDS) + ("z0", "timestamps"):
+            setattr(m, f, getattr(fresh, f))
+        return m
     kw = {}
     for f in FIELDS:
         v = case[f]
@@ -82,6 +99,12 @@ def enumerate_cases():
                         nn = n if any(pattern) else 1
                         c["ts"] = {"none": None, "right": list(range(100, 100 + nn)), "wrong": list(range(100, 100 + nn + 1)),
                                    "one": [100]}[tsk]
+                        if len(cases) % 3 == 0:
+                            # wind from due north: the value 0 is an ordinary entry / scalar, not a missing one
+                            if isinstance(c["wind_dir"], list):
+                                c["wind_dir"][len(cases) % len(c["wind_dir"])] = 0
+                            else:
+                                c["wind_dir"] = 0
                         cases.append(c)
                 if not any(pattern):
                     break
@@ -176,8 +199,13 @@ def run(rng, tier, deep):
     for k, c in enumerate(cases):
         cc = dict(c, driver=(k % 7 == 0))
         run_oracle(st, o_met, cc)
+    # object re-use: every 3rd case once more, on a MetConfig object that held another forcing before
+    for k in range(0, len(cases), 3):
+        prev = cases[int(rng.integers(len(cases)))]
+        cc = dict(cases[k], prev={kk: vv for kk, vv in prev.items() if kk != "prev"})
+        run_oracle(st, o_met, cc)
     res = finish(st, "EXHAUSTIVE on the stated space: 2^4 list/scalar patterns x lengths 1..4 (+ one mismatched length per list field) x timestamps "
                  "absent/right/wrong/length-1 x ustar/z0/both/neither; correspondence of validate, n_timesteps and get_step(0..5) incl. IndexError; "
-                 "oracle: independent statement of the property through MetConfig and parse_config_dict, and the timeseries driver's loop count", deep, 0)
+                 "oracle: independent statement of the property through MetConfig and parse_config_dict, the timeseries driver's loop count, and MetConfig objects re-used for a second forcing", deep, 0)
     res["exhaustive"] = True
     return res
